@@ -353,17 +353,18 @@ def tamper(xml, what, pos):
 # ------------------------------------------------------------------ implementation run
 
 
-def run_idp(case):
+def run_idp(case, idp=None):
     from saml2 import saml
 
-    idp = _idp_for(case["md_keys"], case.get("idp_cfg", {}))
+    if idp is None:
+        idp = _idp_for(case["md_keys"], case.get("idp_cfg", {}))
     fl = case["flags"]
     kw = {k: fl.get(k) for k in FLAG_NAMES}
     nid = saml.NameID(format=saml.NAMEID_FORMAT_PERSISTENT, text=case["name_id"])
     with _Recorder(idp) as rec, _ExtraAdvice(idp, case.get("advice_identity")), S.clock(case["now"]):
         try:
             r = idp.create_authn_response(
-                copy.deepcopy(case["identity"]), RID, S.SP_ACS_POST, S.SP_ID, name_id=nid, authn=AUTHN,
+                copy.deepcopy(case["identity"]), RID, case["acs"], case["sp_entity_id"], name_id=nid, authn=AUTHN,
                 pefim=fl["pefim"], encrypt_cert_assertion=_cert_text(case.get("cert_assertion")),
                 encrypt_cert_advice=_cert_text(case.get("cert_advice")), **kw)
         except Exception as e:  # the library refuses to issue (EncryptError, AttributeError on a half-built message ...)
@@ -375,13 +376,15 @@ def run_idp(case):
     return str(r), rec.ops, None
 
 
-def run_sp(case, xml):
+def run_sp(case, xml, sp=None):
+    """`sp` given: the long-lived recipient of a history (its identity cache is kept between steps)"""
     spc = case["sp"]
-    sp = _sp_for({k: spc.get(k) for k in ("want_resp", "want_assert", "want_either", "enc_keys")})
-    from saml2.cache import Cache
-    from saml2.population import Population
+    if sp is None:
+        sp = _sp_for({k: spc.get(k) for k in ("want_resp", "want_assert", "want_either", "enc_keys")})
+        from saml2.cache import Cache
+        from saml2.population import Population
 
-    sp.users = Population(Cache())
+        sp.users = Population(Cache())
     before = F._snapshot(sp)
     outstanding = {RID: "/came/from"} if spc.get("solicited", True) else {}
     oc = None
@@ -429,7 +432,13 @@ def _ava3(ava, want):
 
 
 def run_impl(case):
-    xml, ops, exc = run_idp(case)
+    if "history" in case:
+        return run_history(case)
+    return run_one(case)
+
+
+def run_one(case, idp=None, sp=None):
+    xml, ops, exc = run_idp(case, idp)
     if xml is None:
         return {"idp": "refused", "ops": []}
     shape, outer, adv = read_wire(xml)
@@ -440,7 +449,7 @@ def run_impl(case):
     issued_id = outer.get("ID") if outer is not None else None
     sent, applied = tamper(xml, case.get("tamper"), case.get("tamper_pos", 0))
     out["tampered"] = applied
-    sp = run_sp(case, sent)
+    sp = run_sp(case, sent, sp)
     if sp["r"] == "identity":
         ava = sp.pop("ava")
         sp["ava_outer"] = _ava3(ava, want_outer)
@@ -451,6 +460,67 @@ def run_impl(case):
         sp["assertion_ok"] = sp.pop("assertion_id") == issued_id
     out["sp"] = sp
     return out
+
+
+# ------------------------------------------------------------------ histories on one IdP / one recipient
+
+SPS = {  # recipients of a history: entity id, assertion consumer URL
+    "A": (S.SP_ID, S.SP_ACS_POST),
+    "B": (S.SP2_ID, "https://sp2.verif.example/acs/post"),
+    "C": ("https://sp3.verif.example/sp", "https://sp3.verif.example/acs/post"),
+}
+
+
+def _store_xml(state):
+    """metadata document for the recipients of a history; state: sp_name -> key descriptors now published"""
+    ents, flat = [], []
+    for name in sorted(state):
+        eid, acs = SPS[name]
+        ents.append({"entity_id": eid, "spsso": {"keys": [(use, k) for use, k, _u in state[name]],
+                                                  "acs": [(S.BINDING_POST, acs, 0)]}})
+        flat.extend(state[name])
+    md = S.metadata_xml(ents)
+    if any(not u for _, _, u in flat):
+        parts = md.split("<md:KeyDescriptor")
+        assert len(parts) == len(flat) + 1
+        for i, (use, name, usable) in enumerate(flat):
+            if not usable:
+                parts[i + 1] = parts[i + 1].replace(S.cert_b64(name), GARBAGE + "%04d" % i, 1)
+        md = "<md:KeyDescriptor".join(parts)
+    return md
+
+
+def run_history(case):
+    """every step on ONE Server instance (Entity.reload_metadata when a step's store differs from the one
+    loaded) and ONE Saml2Client instance per recipient; each step is observed like a single case"""
+    steps = case["history"]
+    state = {}
+    for st in steps:
+        state.setdefault(st["sp_name"], st["md_keys"])  # the store starts with every recipient as first seen
+    conf = S.idp_config()
+    conf["metadata"] = {"inline": [_store_xml(state)]}
+    for k, v in (steps[0].get("idp_cfg") or {}).items():
+        if v is not None:
+            conf["service"]["idp"][k] = v
+    idp = S.make_idp(conf)
+    sps, outs = {}, []
+    for st in steps:
+        name = st["sp_name"]
+        if state[name] != st["md_keys"]:
+            state[name] = st["md_keys"]
+            if not idp.reload_metadata({"inline": [_store_xml(state)]}):
+                raise RuntimeError("reload_metadata failed")
+        if name not in sps:
+            spc = st["sp"]
+            spopts = {"endpoints": {"assertion_consumer_service": [(SPS[name][1], S.BINDING_POST)]}}
+            for opt, o in (("want_resp", "want_response_signed"), ("want_assert", "want_assertions_signed"),
+                           ("want_either", "want_assertions_or_response_signed")):
+                if spc.get(opt) is not None:
+                    spopts[o] = spc[opt]
+            sps[name] = S.make_sp(S.sp_config(sp=spopts, entityid=SPS[name][0], encryption_keypairs=[
+                {"key_file": S.key_path(k), "cert_file": S.cert_path(k)} for k in spc.get("enc_keys", [])]))
+        outs.append(run_one(st, idp, sps[name]))
+    return {"steps": outs}
 
 
 def _canon_ops(ops, outer_id):
@@ -581,6 +651,8 @@ def gen_cases(rng, tier):
                     yield base_case(rng, fl, md, ca, cad, sp, t, "cell/%s/flip-%s" % (src, t))
     for c in corner_cases(rng):
         yield c
+    for c in history_cases(rng, 80 if tier == "quick" else 1500):
+        yield c
     n = 1200 if tier == "quick" else 24000
     for _ in range(n):
         yield random_case(rng)
@@ -667,10 +739,112 @@ def random_case(rng):
     return c
 
 
+# ------------------------------------------------------------------ histories
+
+
+def _instance(rng, names, keys=None, idp_cfg=None):
+    """what stays fixed for the life of the IdP instance and of each recipient instance"""
+    return {"idp_cfg": idp_cfg or {},
+            "sp": {n: {"want_resp": False, "want_assert": None, "want_either": None,
+                       "enc_keys": list((keys or {}).get(n, ["sp_enc1"]))} for n in names}}
+
+
+def _step(rng, inst, sp_name, flags, md, ca=None, cad=None, tamper=None, explicit=None, **sp_over):
+    c = base_case(rng, flags, md if isinstance(md, str) else "md", ca, cad, None, tamper, "step")
+    if not isinstance(md, str):
+        c["md_keys"] = copy.deepcopy(md)
+    c["sp_name"] = sp_name
+    c["sp_entity_id"], c["acs"] = SPS[sp_name]
+    c["idp_cfg"] = dict(inst["idp_cfg"])
+    c["sp"].update(inst["sp"][sp_name])
+    c["sp"]["explicit_keys"] = list(explicit or [])
+    c["sp"].update(sp_over)
+    return c
+
+
+def _history(tag, steps):
+    return {"tag": "history/" + tag, "history": steps}
+
+
+ENC2 = [["signing", "sp", True], ["encryption", "sp_enc2", True]]
+
+
+def history_cases(rng, n_random):
+    """sequences on ONE Server and ONE Saml2Client per recipient: the store changes between calls (reload),
+    recipients with different certificate situations alternate, explicit and metadata certificates alternate,
+    PEFIM and non-PEFIM alternate; the recipient sees different key situations in sequence"""
+    for sr, sa, pf in itertools.product((False, True), repeat=3):
+        f = _flags(sr, sa, True, False, True, pf)
+        inst = _instance(rng, "A", {"A": ["sp_enc1", "sp_enc2"]})
+        # a certificate appears / disappears / is rotated between calls
+        yield _history("cert-added", [_step(rng, inst, "A", f, "none"), _step(rng, inst, "A", f, "md"),
+                                      _step(rng, inst, "A", f, "md")])
+        yield _history("cert-removed", [_step(rng, inst, "A", f, "md"), _step(rng, inst, "A", f, "none"),
+                                        _step(rng, inst, "A", f, "md")])
+        yield _history("cert-rotated", [_step(rng, inst, "A", f, "md"), _step(rng, inst, "A", f, ENC2),
+                                        _step(rng, inst, "A", f, "md2"), _step(rng, inst, "A", f, "garbage-first")])
+        inst1 = _instance(rng, "A", {"A": ["sp_enc1"]})
+        yield _history("cert-rotated-old-key-only", [_step(rng, inst1, "A", f, "md"), _step(rng, inst1, "A", f, ENC2),
+                                                     _step(rng, inst1, "A", f, "md")])
+        # recipients in different certificate situations, interleaved
+        inst3 = _instance(rng, "ABC", {"A": ["sp_enc1"], "B": ["sp_enc1"], "C": ["sp_enc2", "sp_enc1"]})
+        sit = {"A": "md", "B": "none", "C": ENC2}
+        order = ["B", "A", "C", "B", "A", "C"] if rng.random() < 0.5 else ["A", "B", "A", "C", "B", "C"]
+        yield _history("interleaved", [_step(rng, inst3, n, f, sit[n]) for n in order])
+        sit2 = {"A": "none", "B": "md", "C": "garbage-only"}
+        yield _history("interleaved-then-swapped", [_step(rng, inst3, n, f, sit[n]) for n in "ABC"] +
+                       [_step(rng, inst3, n, f, sit2[n]) for n in "ABC"])
+        # explicit certificate before / after a metadata certificate (per-request key handed to the recipient)
+        inst = _instance(rng, "A", {"A": ["sp_enc1"]})
+        ex = lambda md: _step(rng, inst, "A", f, md, "sp_enc2", "sp_enc2", None, ["sp_enc2"])  # noqa: E731
+        yield _history("explicit-then-metadata", [ex("none"), _step(rng, inst, "A", f, "md"), ex("md"),
+                                                  _step(rng, inst, "A", f, "none")])
+        yield _history("metadata-then-explicit", [_step(rng, inst, "A", f, "md"), ex("md"), ex("none"),
+                                                  _step(rng, inst, "A", f, "md")])
+        # PEFIM and non-PEFIM, assertion encryption on and off, alternating
+        g = lambda ea, p: _flags(sr, sa, ea, False, True, p)  # noqa: E731
+        yield _history("pefim-alternating", [_step(rng, inst, "A", g(True, True), "md"), _step(rng, inst, "A", g(True, False), "md"),
+                                             _step(rng, inst, "A", g(False, True), "md"), _step(rng, inst, "A", g(False, False), "md"),
+                                             _step(rng, inst, "A", g(True, True), "md")])
+        # one recipient, different key situations in sequence: opens / shut / per-request key / damaged / opens
+        yield _history("recipient-key-situations", [
+            _step(rng, inst, "A", f, "md"),
+            _step(rng, inst, "A", f, "md", "sp_enc2", "sp_enc2"),
+            _step(rng, inst, "A", f, "md", "sp_enc2", "sp_enc2", None, ["sp_enc2"]),
+            _step(rng, inst, "A", f, "md", None, "sp_enc2", None, ["sp_enc2"]),
+            _step(rng, inst, "A", f, "md", None, None, "data"),
+            _step(rng, inst, "A", f, "md", "attacker", "attacker", None, ["sp_enc2"]),
+            _step(rng, inst, "A", f, "md")])
+    for _ in range(n_random):
+        names = rng.choice(["A", "AB", "ABC"])
+        keys = {n: rng.choice([["sp_enc1"], ["sp_enc2", "sp_enc1"], ["sp_enc2"], []]) for n in names}
+        cfg = {k: rng.choice([None, False, True]) for k in FLAG_NAMES if rng.random() < 0.15}
+        inst = _instance(rng, names, keys, cfg)
+        for n in names:
+            if rng.random() < 0.4:
+                inst["sp"][n].update({"want_resp": rng.choice([None, False, True]), "want_assert": rng.choice([None, False, True])})
+        cur = {n: rng.choice(["md", "md", "none", "md2", "garbage-first", "no-use"]) for n in names}
+        steps = []
+        for _k in range(rng.randint(3, 6)):
+            n = rng.choice(names)
+            if rng.random() < 0.45:
+                cur[n] = rng.choice(["md", "md", "none", "none", "md2", "garbage-first", "garbage-only", "no-use", "empty", ENC2])
+            f = _flags(rng.random() < 0.5, rng.random() < 0.5, rng.random() < 0.7, rng.random() < 0.2, rng.random() < 0.8,
+                       rng.random() < 0.35)
+            cert = rng.choice([None] * 6 + ["sp_enc1", "sp_enc2", "pem:sp_enc2", ""])
+            steps.append(_step(rng, inst, n, f, cur[n], cert, cert if rng.random() < 0.7 else None,
+                               rng.choice([None] * 5 + ["key", "data"]),
+                               rng.sample(["sp_enc1", "sp_enc2"], rng.randint(1, 2)) if rng.random() < 0.25 else None))
+        yield _history("random", steps)
+
+
 # ------------------------------------------------------------------ verdict helpers
 
 
 def compare(case, impl, model):
+    if "history" in case:
+        a, b = impl.get("steps", []), (model or {}).get("steps", [])
+        return len(a) == len(b) == len(case["history"]) and all(compare(c, x, y) for c, x, y in zip(case["history"], a, b))
     if model is None or impl.get("idp") != model.get("idp"):
         return False
     if impl["idp"] != "ok":
@@ -695,6 +869,8 @@ def finding_key(case, impl, lean):
     back - the case lies in the defect's input class (decided by the driver from the case alone, Spec/C16.lean:
     earlyReturnClass / objectFormClass) AND the implementation fails the way it used to (early return: the only
     operation is the assertion signature and the advice is readable; object form: the call raises)"""
+    if "history" in case:
+        return None  # a history that fails is a failure of its own (state carried between calls)
     cl = lean.get("classes") or {}
     why = set(lean.get("why") or [])
     if cl.get("early") and impl.get("idp") == "ok" and impl.get("ops") == ["signAssertion"] \
@@ -707,10 +883,29 @@ def finding_key(case, impl, lean):
 
 def nontrivial(case, impl, lean):
     cl = lean.get("classes") or {}
+    if "history" in case:
+        return bool(cl.get("well_posed"))
     return bool(cl.get("well_posed")) or (impl.get("idp") == "ok" and (impl["wire"]["body"] == "sealed" or impl["wire"]["advice"] == "sealed"))
 
 
 def shrink(case):
+    if "history" in case:
+        steps = case["history"]
+        for i in range(len(steps)):
+            if len(steps) > 1:
+                yield {"tag": case.get("tag"), "history": steps[:i] + steps[i + 1:]}
+        for i, st in enumerate(steps):
+            for k in FLAG_NAMES + ["pefim"]:
+                if st["flags"].get(k):
+                    c = copy.deepcopy(case)
+                    c["history"][i]["flags"][k] = False
+                    yield c
+            if len(st["identity"]) > 1 or any(len(v) > 1 for v in st["identity"].values()):
+                c = copy.deepcopy(case)
+                k = sorted(st["identity"])[0]
+                c["history"][i]["identity"] = {k: st["identity"][k][:1]}
+                yield c
+        return
     base = {"want_resp": False, "want_assert": None, "want_either": None, "explicit_keys": [], "solicited": True, "delay": 0}
     for k, v in base.items():
         if case["sp"].get(k) != v:
@@ -747,6 +942,8 @@ def shrink(case):
 
 
 def neighbours(case, rng):
+    if "history" in case:
+        return
     for k in FLAG_NAMES + ["pefim"]:
         c = copy.deepcopy(case)
         c["flags"][k] = not c["flags"].get(k)
@@ -765,6 +962,10 @@ def distribution(recs):
     d = {}
     for r in recs:
         i = r["impl"]
+        if "history" in r["case"]:
+            k = r["case"]["tag"] + ":%d steps" % len(r["case"]["history"])
+            d[k] = d.get(k, 0) + 1
+            continue
         k = r["case"].get("tag", "?").split("/")[0] + ":" + (
             "refused" if i.get("idp") != "ok" else "%s/%s->%s" % (i["wire"]["body"], i["wire"]["advice"], i["sp"]["r"]))
         d[k] = d.get(k, 0) + 1
